@@ -132,6 +132,9 @@ func NewConfig(addr string, routes Routes, opts ...ConfigOption) (*Config, error
 	if len(routes) == 0 {
 		return nil, errors.New("routes cannot be empty")
 	}
+	if err := validateRoutes(routes); err != nil {
+		return nil, err
+	}
 
 	// Use constants for default values
 	c := &Config{
@@ -151,6 +154,22 @@ func NewConfig(addr string, routes Routes, opts ...ConfigOption) (*Config, error
 	}
 
 	return c, nil
+}
+
+// validateRoutes registers the route patterns on a scratch ServeMux, which panics on
+// malformed, duplicate or conflicting patterns. Such routes are rejected here, with an error,
+// instead of panicking later in Run() or Reload() when the real mux is built.
+func validateRoutes(routes Routes) (err error) {
+	defer func() {
+		if r := recover(); r != nil {
+			err = fmt.Errorf("invalid routes: %v", r)
+		}
+	}()
+	mux := http.NewServeMux()
+	for _, route := range routes {
+		mux.Handle(route.Path, http.NotFoundHandler())
+	}
+	return nil
 }
 
 // String returns a human-readable representation of the Config
